@@ -173,6 +173,13 @@ def gen_matrix(spec: dict) -> torch.Tensor:
         dev = float(spec.get("spread", 1.0)) * torch.randn(m, n, generator=g, dtype=dt)
         if spec.get("hetero"):  # rows at clearly different distances from the common component: well separated Krum scores
             dev = dev * (1.0 + 0.6 * torch.arange(m, dtype=dt)).unsqueeze(1)
+        if spec.get("tight"):
+            # MANY rows: `tight` rows clearly closer to the common component than all the others (the selection of Krum is unambiguous
+            # by a factor ~2 in the scores, however many distances each score sums), rows shuffled
+            t = int(spec["tight"])
+            f = torch.cat([1.0 + 0.3 * torch.arange(t, dtype=dt), 6.0 * (1.0 + 0.05 * torch.arange(m - t, dtype=dt))])
+            dev = float(spec.get("spread", 1.0)) * torch.randn(m, n, generator=g, dtype=dt) * f.unsqueeze(1)
+            dev = dev[torch.randperm(m, generator=g)]
         M = torch.randn(1, n, generator=g, dtype=dt) * float(spec.get("ratio", 1e4)) + dev
     elif kind == "gauss":
         M = torch.randn(m, n, generator=g, dtype=dt)
